@@ -213,9 +213,9 @@ def cases():
     for j, mm in enumerate([x for x in families.curated_meshes() if x.name in ('3d-2lev-mixed', '2d-2lev')]):
         out.append({'label': '%s/lev-prefix' % mm.name, 'mesh': mm, 'fields': ['density', 'temp'] if 'c05' in __name__ else families.FIELD_SETS[1 + j], 'layout': families.scatter_layouts(mm, rnd, 2), 'geom': j,
                     'ref_extra': j, 'level_prefix': ['Lev_', 'amr_'][j]})
-    for r in range(6 if tier == 'quick' else 200):
+    for r in range(6 if tier == 'quick' else 400):
         nd = rnd.choice([2, 3])
-        m = families.random_mesh(rnd, nd, max_levels=2 if tier == 'quick' else 3, max_boxes=4)
+        m = families.random_mesh(rnd, nd, max_levels=2 if tier == 'quick' else 3, max_boxes=4 if tier == 'quick' else 6, max_extent=6 if tier == 'quick' else 8)
         m.name = 'rand%d-%dd' % (r, nd)
         out.append({'label': m.name, 'mesh': m, 'fields': rnd.choice(UNIQUE_FIELD_SETS[:4]), 'layout': families.scatter_layouts(m, rnd, 3),
                     'geom': rnd.randrange(3), 'ref_extra': rnd.randrange(2)})
